@@ -1,48 +1,12 @@
-"""Registry of claimed properties -> MANIFEST.json entries (lib/gen_manifest.py)."""
+"""Registry of claimed properties: one JSON file per property under props/reg/ (category, text, design_ref,
+technique, note).  lib/gen_manifest.py turns it into MANIFEST.json."""
+import glob, json, os
 
-TRACE_NOTE = ("Trusted: the harness store linearizes backend operations (in-memory backend, atomic per operation); "
-              "projection of stored bytes uses restic's crypto/pack-header decoder; TLC 1.8; a crash is a stop between two backend operations.")
-
-CLAIMED = {
-    "C09": dict(
-        category="model_checking",
-        text="Design: RepoProc.tla (prune/backup/forget processes with crash at every step) is model-checked exhaustively against the "
-             "design.rst invariants and ordering rules of Repo.tla. Conformance: every backend operation of real prune runs over generated "
-             "histories and option classes is recorded and replayed through RepoTrace.tla, TLC evaluating SnapshotIndexed/SnapshotData/IndexSound "
-             "and the delete-ordering rules in every recorded state (= every crash point); sampled (quick) or all (thorough) crash prefixes are "
-             "additionally judged by the real `check --read-data` and by loading every blob of every remaining snapshot, and prune is re-run on a crashed prefix.",
-        design_ref="§4 C09",
-        technique="TLA+ trace validation (RepoTrace.tla) of recorded prune runs + real-check oracle on every crash prefix",
-        note=TRACE_NOTE,
-    ),
-    "C11": dict(
-        category="model_checking",
-        text="Design: RepoProc.tla backup family (writers, reader, crash anywhere; broken twins snapshot-before-index, index-before-pack, reader-index-first refuted). "
-             "Conformance: real backups over generated trees (several packs, lowered index-full threshold so intermediate index files occur) are run to completion and under "
-             "injected faults (Save/Remove error before or after effect at op k, context cancel at op k, process death at op k, Load error at read j); every recorded backend "
-             "operation goes through RepoTrace.tla (all invariants + write-ordering rules in every state = every crash point); crash prefixes and post-fault states are judged by the "
-             "real check --read-data, by loading every blob of every snapshot present, and by a follow-up backup + prune that must succeed.",
-        design_ref="§4 C11",
-        technique="TLA+ trace validation (RepoTrace.tla) of real backup runs under enumerated faults + real-check oracle on crash prefixes",
-        note=TRACE_NOTE,
-    ),
-    "C23": dict(
-        category="model_checking",
-        text="Real `forget` invocations (policy and id mode, filters, group-by variants, dry-run, --unsafe-allow-remove-all) on generated repositories; the recorded backend "
-             "operations are validated by RepoTrace.tla (ForgetMatchesReport: snapshot files removed during the command = the JSON report / named ids; ReadOnlyRespected for dry-run), "
-             "and the harness compares deleted files with the report and with an independent grouping/filter implementation (no group emptied under a non-empty policy, empty policy removes nothing).",
-        design_ref="§4 C23",
-        technique="TLA+ trace validation (RepoTrace.tla: ForgetMatchesReport, ReadOnlyRespected) of real forget runs + independent grouping oracle",
-        note=TRACE_NOTE,
-    ),
-    "C26": dict(
-        category="model_checking",
-        text="Design: RepoProc.tla tag family (save new then remove old, crash anywhere; remove-first twin refuted by TagNeverLoses). Conformance: real tag / rewrite (exclude, metadata, "
-             "--forget on/off, no-match) / repair snapshots runs in multi-step histories (already rewritten snapshots), complete and with Save/Remove errors or process death at op k; "
-             "RepoTrace.tla checks R_SnapshotNotLost and R_OriginalKept on every recorded step; the harness re-reads every prefix storage with the real code and checks that every "
-             "lineage still has a snapshot and that Original/tree relations hold.",
-        design_ref="§4 C26",
-        technique="TLA+ trace validation (RepoTrace.tla: R_SnapshotNotLost, R_OriginalKept) of real tag/rewrite/repair runs at every crash prefix",
-        note=TRACE_NOTE,
-    ),
-}
+HERE = os.path.dirname(os.path.abspath(__file__))
+CLAIMED = {}
+for f in sorted(glob.glob(os.path.join(HERE, "reg", "C*.json"))):
+    CLAIMED[os.path.basename(f)[:-5]] = json.load(open(f))
+NOT_APPLICABLE = {}
+na = os.path.join(HERE, "reg", "not_applicable.json")
+if os.path.exists(na):
+    NOT_APPLICABLE = json.load(open(na))
